@@ -213,9 +213,9 @@ def main():
         for k, x in st.items():
             tot["%s.%s" % (v, k)] = x
     for v in builds:
-        if tot.get(v + ".steps_with_record", 0) == 0:
+        if (tot.get(v + ".steps_with_record", 0) == 0) and F.n_unlisted() == 0:
             raise Harness("no records for %s: %s" % (v, tot))
-    if tot.get("plain.heap_checked", 0) == 0:
+    if (tot.get("plain.heap_checked", 0) == 0) and F.n_unlisted() == 0:
         raise Harness("allocator monitor saw nothing")
     rc = F.report()
     write_evidence(PROP, "exploration", tr, dict(
